@@ -9,11 +9,11 @@ COMMON_TRUST = [
 
 PROPS = {
     'C15': dict(
-        units=['tls'], level='proof',
+        units=['tls', 'serverconfig'], level='proof',
         not_covered=[
             'decided here is WHAT TONIC ASKS RUSTLS TO DO (the configuration it assembles and the checks it makes around the handshake); certificate path validation, name matching, the handshake itself and ALPN negotiation are rustls / tokio-rustls: a session is assumed to exist only if the handshake succeeded under the ClientConfig / ServerConfig and server name it was started with (A-rustls-02), and the builder calls are records of what was asked for (A-rustls-01)',
             'the fixed feature configuration is tls-ring without tls-native-roots / tls-webpki-roots: the code guarded by those two features (extra root sources) is configured out and not verified',
-            'Connector::call is verified through its two nested async blocks lifted into async fns (R28) and a postcondition of `call` about the future it returns; Endpoint::{new, tls_config, connector} and Server::tls_config (which store the connector / acceptor) are not under contract',
+            'Connector::call is verified through its two nested async blocks lifted into async fns (R28) and a postcondition of `call` about the future it returns; Endpoint::{tls_config, connector, new_uri, new_uds} and Server::{tls_config, default, builder} ARE under contract in unit serverconfig (the endpoint / server store exactly the connector / acceptor the configuration yields - an opaque function of the configuration there, its content being the contract of unit tls -, a configuration that yields none is an error, a fresh endpoint / server has no TLS and no timeout); Endpoint::new (which turns TLS on for https URIs by default, through TryInto) and Endpoint::connect* are not',
             'the server accept loop IS under contract (io_stream.rs: ServerIoStream::{new, poll_next_without_tls, poll_next} and the handshake task lifted from JoinSet::spawn, R28): with an acceptor configured nothing is handed to the HTTP stack but TLS streams whose handshake ran under it; tonic\'s `select` (tokio::select! over the listener and the handshake tasks) is NOT verified: it is represented by an assumed one-poll shim (a finished connection is one some task yielded, polling adds no task, A-tonic-select-01) and its text is pinned by a guard, so any edit of it makes C15 undecided; handle_tcp_accept_error is an opaque call; a JoinSet is known only by what its tasks may yield (A-tokio-10)',
             'ServerIo::{new_io, new_tls_io, connect_info}, ServerIoConnectInfo::clone, ConnectInfoLayer::{new, layer}, ConnectInfo::{new, poll_ready, call} are under contract: every request on a TLS connection is handed on with that connection\'s TlsConnectInfo in its extensions (the Extensions type map is modelled for the two entries read here, and the listener\'s own connect info is TcpConnectInfo: A-http-41); where serve_connection builds that layer from io.connect_info() (server/mod.rs) is not under contract; Connected::connect_info for a TLS stream (exactly the verified peer certificates) and Request::peer_certs (exactly what was recorded for the connection) are',
             'PEM parsing (rustls-pki-types readers) is a function of the bytes (A-rustls-05); convert_identity_to_pki_types is under contract, convert_certificate_to_pki_types (iterator adapters) is its assumed twin',
